@@ -400,7 +400,8 @@ def base_rule(spec):
 def derive(rule, form, idx):
     """
     form 0/1 the rule itself, 2/3 its reverse w.r.t. idx, 4 its equivalence rule,
-    5 the equivalence rule of its reverse w.r.t. idx (what EquivalenceRule.to_reverse_rule builds)
+    5 the equivalence rule of its reverse w.r.t. idx (what EquivalenceRule.to_reverse_rule builds);
+    7/8 = 4/5 for a PRODUCT rule
     """
     if form in (0, 1):
         return rule
@@ -415,6 +416,14 @@ def derive(rule, form, idx):
         if not rev.is_equivalence():
             raise ValueError("reverse is not an equivalence")
         return rev.to_equivalence_rule()
+    if form in (7, 8):
+        # the same two derivations applied to a PRODUCT rule (fix 25e10f1: supported for ONE factor, form 7;
+        # EquivalenceRule over a Quotient, form 8, has no constructor: NotImplementedError)
+        from comb_spec_searcher.strategies.constructor import CartesianProduct
+
+        if not isinstance(rule.constructor, CartesianProduct):
+            raise ValueError("not a product rule")
+        return derive(rule, form - 3, idx)
     raise ValueError(form)
 
 
@@ -424,6 +433,14 @@ def path_rule(steps):
 
     rules = []
     for node, rev, idx in steps:
+        if node[0] == "prod":
+            # a RAW one-factor product rule / its ReverseRule: what SpecificationRuleExtractor._find_rule hands
+            # out for a one-child rule (`rule if len(rule.children) == 1 else rule.to_equivalence_rule()`)
+            if len(node[2]) != 1:
+                raise ValueError("a product step of a path has one factor")
+            r = SynProduct()(Syn(node))
+            rules.append(r.to_reverse_rule(0) if rev else r)
+            continue
         r = SynUnion()(Syn(node))
         rules.append(derive(r, 5 if rev else 4, idx))
     for a, b in zip(rules, rules[1:]):
